@@ -241,6 +241,7 @@ def rand_cfg(r):
     unknown = [("not_a_module", "some_test", "empty"), ("qartod", "not_a_test", "gross_full"), ("argo", "nope", "null")]
     nctx = r.choice([1, 1, 1, 2, 3])
     cfg = []
+    seen_ctx = []
     for k in range(nctx):
         streams = []
         for sid in r.sample(["a", "b.c", "temp", "_x"], r.choice([1, 1, 2, 3])):
@@ -257,6 +258,13 @@ def rand_cfg(r):
         else:
             win = r.choice([[NA, NA], [k * 86400, (k + 1) * 86400], [NA, (k + 1) * 86400], [k * 86400 + 5, NA]])
             region = r.choice(["none", "none", "geom", "feat", "feat2"])
+        # two contexts with the same window and the same region ARE one context (Context equality); a rebuilt nested
+        # mapping could then not hold the same stream / module / test twice, so keep the contexts distinguishable
+        key = (tuple(win), "none" if region == "none" else ("AB" if region == "feat2" else "A"))
+        if any(k2 == key for k2 in seen_ctx):
+            win = [k * 86400 + 7, (k + 1) * 86400 + 7]
+            key = (tuple(win), key[1])
+        seen_ctx.append(key)
         cfg.append({"win": win, "region": region, "streams": streams})
     return cfg
 
